@@ -78,18 +78,18 @@ Definition ex_sched : list label :=
   [LRunCall; LRunBegin; LBootLock ORun; LCb ORun (CbSome [(0, 0)]%N); LBootLaunch ORun; LToRunning;
    LKRun 0 0%N;
    LReloadCall 0; LRlLock 0; LCb (ORel 0) (CbSome [(0, 1); (1, 1)]%N);
-   LStopBegin (ORel 0); LWCall 0 0%N; LKExit 0 0%N None; LKSend 0; LWUnblock 0; LWRet 0 0%N;
+   LStopBegin (ORel 0); LWCall 0 0%N; LKExit 0 0%N None; LWUnblock 0; LWRet 0 0%N;
    LStopJoin (ORel 0); LRlSetCfg 0; LBootLock (ORel 0); LBootLaunch (ORel 0); LRlFinish 0; LRlRet 0;
    LKRun 1 0%N; LKRun 2 1%N;
-   LKExit 2 1%N (Some (Join [Errs.Leaf 5; Wrap Canceled; Errs.Leaf 6]%N)); LKSend 2].
+   LKExit 2 1%N (Some (Join [Errs.Leaf 5; Wrap Canceled; Errs.Leaf 6]%N))].
 
 Example C10_nonvacuous_benign_shape : is_cancel (Join [Errs.Leaf 5; Wrap Canceled; Errs.Leaf 6]%N) = true.
 Proof. reflexivity. Qed.
 
 Definition ex_sched2 : list label :=
-  firstn 24 ex_sched ++
+  firstn 23 ex_sched ++
   [LKExit 2 1%N (Some (Wrap (Join [Errs.Leaf 5; Errs.Leaf 6]%N))); LKSend 2; LSelErr; LStopBegin ORun;
-   LWCall 1 1%N; LWRet 1 1%N; LWCall 2 0%N; LKExit 1 0%N None; LKSend 1; LWUnblock 2; LWRet 2 0%N;
+   LWCall 1 1%N; LWRet 1 1%N; LWCall 2 0%N; LKExit 1 0%N None; LWUnblock 2; LWRet 2 0%N;
    LStopJoin ORun; LRunExit].
 
 Example C10_nonvacuous : exists s,
